@@ -236,13 +236,55 @@ class PredAbs:
     init    : formula assumed at entry
     """
 
-    def __init__(self, f, vocab, leaf, effects, init=T):
+    def __init__(self, f, vocab, leaf, effects, init=T, track_bools=False):
         self.f = f
-        self.v = vocab
         self.leaf = leaf
         self.effects = effects
+        self.boolvars = {}
+        if track_bools:
+            # local `bool x = <condition>` copies of a tracked condition become atoms of their own, so that
+            # `const bool done = op->done; if (done)` is as good as `if (op->done)`
+            for e in f.stmts():
+                n = e.node
+                if n.get("k") == "decl":
+                    for v in n["vars"]:
+                        if v["t"] in ("bool", "const bool") and v.get("init") is not None and len(vocab.atoms) + len(self.boolvars) < 12:
+                            if translate(v["init"], leaf) is not None:
+                                self.boolvars[v["d"]] = "b:%s:%d" % (v["n"], v["d"])
+            if self.boolvars:
+                vocab = Vocab(list(vocab.atoms) + sorted(self.boolvars.values()))
+                self.leaf = self._leaf_b
+                self.effects = self._effects_b
+                self._leaf0, self._eff0 = leaf, effects
+        self.v = vocab
         st0 = vocab.assume(vocab.full, init)
         self.flow = Forward(f, st0, self._transfer, lambda a, b: a | b, edge=self._edge)
+
+    def _leaf_b(self, n):
+        r = self._leaf0(n)
+        if r is None and n.get("k") == "var" and n.get("d") in self.boolvars:
+            return A(self.boolvars[n["d"]])
+        return r
+
+    def _effects_b(self, e):
+        ops = list(self._eff0(e) or [])
+        if e.kind == "stmt":
+            n = e.node
+            if n.get("k") == "decl":
+                for v in n["vars"]:
+                    a = self.boolvars.get(v["d"])
+                    if a and v.get("init") is not None:
+                        fm = translate(v["init"], self._leaf_b)
+                        tf = total(fm)
+                        if tf is not None:
+                            ops.append(("assign", a, tf))
+                        else:
+                            ops.append(("havoc", a))
+                            ops.append(("assume", Or(Not(A(a)), known_when(fm, True))))
+                            ops.append(("assume", Or(A(a), known_when(fm, False))))
+            elif n.get("k") == "bin" and n["op"] == "=" and n["lhs"].get("k") == "var" and n["lhs"].get("d") in self.boolvars:
+                ops.append(("havoc", self.boolvars[n["lhs"]["d"]]))
+        return ops
 
     def _apply(self, st, ops):
         v = self.v
